@@ -1,4 +1,6 @@
 import LenaModel.Model.C14
+/-! # C14 — lemmas: slot vectors, `_update_context` on well-formed dictionaries as the pure function `UP`,
+its associativity (`UP_assoc`, `fold_assoc`), and the link to the transcribed functions of `Model/C14.lean`. -/
 namespace Lena.C14
 open V
 
@@ -127,20 +129,6 @@ structure NamesOK : Prop where
   hType : "type" ∈ names
   hCompose : "compose" ∈ names
   hVariable : "variable" ∈ names
-
-/-- the composition history a variable context carries: its `compose` list, else its `type` -/
-def hist (a : Slots) : List V :=
-  match getSlot a (kCompose names) with
-  | some (.seq false l) => l
-  | some _ => []
-  | none =>
-    match getSlot a (kType names) with
-    | some t => [t]
-    | none => []
-
-/-- key number `j` is the slot of one of the strings in `c` -/
-def inT (c : List V) (j : Nat) : Bool :=
-  c.any (fun t => match t with | .str s => key names s == j | _ => false)
 
 /-- all entries are strings -/
 def IsTypeList (l : List V) : Prop := ∀ t ∈ l, ∃ s, t = V.str s
@@ -549,16 +537,72 @@ end
 section
 variable {names : List String}
 
+/-- the condition of line 196 as pinned (`fx = false`) agrees with the patched one on a dictionary that has
+`type` whenever it has `compose` -/
+def StepOK (names : List String) (fx : Bool) (p : Slots) : Prop :=
+  fx = true ∨ (hasKey p (kCompose names) = true → hasKey p (kType names) = true)
+
+/-- every variable context but the last has a `type` (needed only for the pinned condition) -/
+def ChainTyped (names : List String) (fx : Bool) (as : List Slots) : Prop :=
+  fx = true ∨ ∀ b ∈ as.dropLast, hasKey b (kType names) = true
+
+theorem updateVar_eq_UP_gen (hn : NamesOK names) {fx : Bool} {p b : Slots} (hp : VarWF names p) (hb : VarWF names b)
+    (hs : StepOK names fx p) : updateVar names fx (some (.dict p)) b = .ok (UP names p b) := by
+  rw [← updateVar_eq_UP hn hp hb]
+  rcases hs with h | h
+  · rw [h]
+  · cases fx with
+    | true => rfl
+    | false =>
+      unfold updateVar
+      cases hc : hasKey p (kCompose names) <;> cases ht : hasKey p (kType names) <;> simp_all
+
+theorem hasKey_UP (hn : NamesOK names) (p : Slots) {b : Slots} {j : Nat} (hj : j ≠ kCompose names)
+    (h : hasKey b j = true) : hasKey (UP names p b) j = true := by
+  unfold hasKey at h ⊢
+  rw [getSlot_UP hn]
+  by_cases hh : hist names p = []
+  · simp [hh, h]
+  · cases hb : getSlot b j with
+    | none => rw [hb] at h; cases h
+    | some x => simp [hh, hj, mergeSlot]
+
+theorem ChainTyped.tail {fx : Bool} {b c : Slots} {r : List Slots} (h : ChainTyped names fx (b :: c :: r)) :
+    ChainTyped names fx (c :: r) ∧ (fx = true ∨ hasKey b (kType names) = true) := by
+  rcases h with h | h
+  · exact ⟨Or.inl h, Or.inl h⟩
+  · refine ⟨Or.inr (fun x hx => h x ?_), Or.inr (h b ?_)⟩
+    · simp only [List.dropLast_cons_cons, List.mem_cons] at hx ⊢
+      exact Or.inr hx
+    · simp
+
+theorem StepOK.of_typed {fx : Bool} {p : Slots} (h : fx = true ∨ hasKey p (kType names) = true) : StepOK names fx p := by
+  rcases h with h | h
+  · exact Or.inl h
+  · exact Or.inr (fun _ => h)
+
 /-- the loop of `Compose.__init__` on well-formed variable contexts is the fold of `UP` -/
-theorem composeFold_eq (hn : NamesOK names) (rest : List Slots) (a : Slots) (ha : VarWF names a)
-    (hr : ∀ b ∈ rest, VarWF names b) :
-    composeFold names true a rest = .ok (rest.foldl (UP names) a) := by
+theorem composeFold_eq (hn : NamesOK names) {fx : Bool} (rest : List Slots) (a : Slots) (ha : VarWF names a)
+    (hr : ∀ b ∈ rest, VarWF names b) (ht : ChainTyped names fx (a :: rest)) :
+    composeFold names fx a rest = .ok (rest.foldl (UP names) a) := by
   induction rest generalizing a with
   | nil => rfl
   | cons b r ih =>
     have hb := hr b (by simp)
-    simp only [composeFold, updateVar_eq_UP hn ha hb, List.foldl_cons]
-    exact ih _ (VarWF_UP hn ha hb) (fun c hc => hr c (by simp [hc]))
+    have ht' := ht.tail
+    simp only [composeFold, updateVar_eq_UP_gen hn ha hb (StepOK.of_typed ht'.2), List.foldl_cons]
+    apply ih _ (VarWF_UP hn ha hb) (fun c hc => hr c (by simp [hc]))
+    -- the accumulated context is typed when `b` is
+    rcases ht'.1 with h | h
+    · exact Or.inl h
+    · refine Or.inr (fun x hx => ?_)
+      cases r with
+      | nil => simp at hx
+      | cons c r' =>
+        simp only [List.dropLast_cons_cons, List.mem_cons] at hx
+        rcases hx with rfl | hx
+        · exact hasKey_UP hn a hn.type_ne_compose (h b (by simp))
+        · exact h x (by simp only [List.dropLast_cons_cons, List.mem_cons]; exact Or.inr hx)
 
 theorem VarWF_foldl (hn : NamesOK names) (rest : List Slots) (a : Slots) (ha : VarWF names a)
     (hr : ∀ b ∈ rest, VarWF names b) : VarWF names (rest.foldl (UP names) a) := by
@@ -686,23 +730,29 @@ theorem composeGetter_eq (vars : List (Variable D)) : composeGetter vars = chain
 
 /-- a chain applied to a value whose `context.variable` is a well-formed dictionary `p`: the getters are
 applied in order, `context.variable` becomes the fold of `UP` from `p`, nothing else changes -/
-theorem seqCall_dict (hn : NamesOK names) (rest : List (Variable D)) (v : Variable D) (d : D) (c p : Slots)
+theorem seqCall_dict (hn : NamesOK names) {fx : Bool} (rest : List (Variable D)) (v : Variable D) (d : D) (c p : Slots)
     (hc : getSlot c (kVariable names) = some (.dict p)) (hp : VarWF names p) (hv : VarWF names v.varCtx)
-    (hr : ∀ w ∈ rest, VarWF names w.varCtx) :
-    seqCall names true (v :: rest) (.pair d c) =
+    (hr : ∀ w ∈ rest, VarWF names w.varCtx) (hs : StepOK names fx p)
+    (ht : ChainTyped names fx ((v :: rest).map Variable.varCtx)) :
+    seqCall names fx (v :: rest) (.pair d c) =
       .ok (chainData (v :: rest) d,
            setSlot c (kVariable names) (some (.dict ((rest.map Variable.varCtx).foldl (UP names) (UP names p v.varCtx))))) := by
   induction rest generalizing v d c p with
   | nil =>
-    simp only [seqCall, call, getDataContext, updateContext, hc, updateVar_eq_UP hn hp hv]
+    simp only [seqCall, call, getDataContext, updateContext, hc, updateVar_eq_UP_gen hn hp hv hs]
     rfl
   | cons w r ih =>
     have hw := hr w (by simp)
-    have hstep : seqCall names true (v :: w :: r) (.pair d c) =
-        seqCall names true (w :: r) (.pair (v.getter d) (setSlot c (kVariable names) (some (.dict (UP names p v.varCtx))))) := by
-      simp only [seqCall, call, getDataContext, updateContext, hc, updateVar_eq_UP hn hp hv]
+    have ht' := ChainTyped.tail (by simpa using ht)
+    have hstep : seqCall names fx (v :: w :: r) (.pair d c) =
+        seqCall names fx (w :: r) (.pair (v.getter d) (setSlot c (kVariable names) (some (.dict (UP names p v.varCtx))))) := by
+      simp only [seqCall, call, getDataContext, updateContext, hc, updateVar_eq_UP_gen hn hp hv hs]
+    have hs' : StepOK names fx (UP names p v.varCtx) := by
+      rcases ht'.2 with h | h
+      · exact Or.inl h
+      · exact Or.inr (fun _ => hasKey_UP hn p hn.type_ne_compose h)
     rw [hstep, ih w (v.getter d) _ (UP names p v.varCtx) (by simp [getSlot_setSlot]) (VarWF_UP hn hp hv) hw
-      (fun u hu => hr u (by simp [hu]))]
+      (fun u hu => hr u (by simp [hu])) hs' (by simpa using ht'.1)]
     simp only [setSlot_setSlot, chainData, List.foldl_cons, List.map_cons]
 
 theorem dictUpdate_empty (hn : NamesOK names) (a : Slots) (ha : a.length = names.length) :
@@ -717,15 +767,16 @@ theorem dictUpdate_empty (hn : NamesOK names) (a : Slots) (ha : a.length = names
 
 /-- `Compose(v₁, …, vₙ)` of well-formed, named variables is constructed without an exception; its getter
 applies the getters in order and its `var_context` is the fold of `UP` over the variables' contexts -/
-theorem mkCompose_ok (hn : NamesOK names) (v1 : Variable D) (rest : List (Variable D))
-    (hv : ∀ v ∈ v1 :: rest, VarWF names v.varCtx ∧ (getSlot v.varCtx (kName names)).isSome = true) :
-    mkCompose names true ((v1 :: rest).map some) (emptyD names.length) =
+theorem mkCompose_ok (hn : NamesOK names) {fx : Bool} (v1 : Variable D) (rest : List (Variable D))
+    (hv : ∀ v ∈ v1 :: rest, VarWF names v.varCtx ∧ (getSlot v.varCtx (kName names)).isSome = true)
+    (ht : ChainTyped names fx ((v1 :: rest).map Variable.varCtx)) :
+    mkCompose names fx ((v1 :: rest).map some) (emptyD names.length) =
       .ok ⟨chainData (v1 :: rest), (rest.map Variable.varCtx).foldl (UP names) v1.varCtx⟩ := by
   have hall : (List.map some (v1 :: rest)).all Option.isSome = true := by simp
   have hfm : List.filterMap id (List.map some (v1 :: rest)) = v1 :: rest := by
     simp [List.filterMap_map]
-  have hfold := composeFold_eq hn (rest.map Variable.varCtx) v1.varCtx (hv v1 (by simp)).1
-    (by intro b hb; obtain ⟨w, hw, rfl⟩ := List.mem_map.1 hb; exact (hv w (by simp [hw])).1)
+  have hfold := composeFold_eq hn (fx := fx) (rest.map Variable.varCtx) v1.varCtx (hv v1 (by simp)).1
+    (by intro b hb; obtain ⟨w, hw, rfl⟩ := List.mem_map.1 hb; exact (hv w (by simp [hw])).1) (by simpa using ht)
   have hlast := hv ((v1 :: rest).getLast (by simp)) (List.getLast_mem _)
   have hwf := VarWF_foldl hn (rest.map Variable.varCtx) v1.varCtx (hv v1 (by simp)).1
     (by intro b hb; obtain ⟨w, hw, rfl⟩ := List.mem_map.1 hb; exact (hv w (by simp [hw])).1)
@@ -739,6 +790,301 @@ theorem mkCompose_ok (hn : NamesOK names) (v1 : Variable D) (rest : List (Variab
   | some nm =>
     simp only [dictUpdate_empty hn _ hwf.len]
     rfl
+
+end
+
+section
+variable {names : List String}
+
+theorem isTypeListB_sound {l : List V} (h : isTypeListB l = true) : IsTypeList l := by
+  intro t ht
+  have := List.all_eq_true.1 h t ht
+  cases t with
+  | str s => exact ⟨s, rfl⟩
+  | int i => cases this
+  | seq b l => cases this
+  | dict l => cases this
+
+theorem varWFb_sound {a : Slots} (h : varWFb names a = true) : VarWF names a := by
+  simp only [varWFb, Bool.and_eq_true, beq_iff_eq] at h
+  obtain ⟨⟨hl, hc⟩, ht⟩ := h
+  refine ⟨hl, ?_, ?_⟩
+  · intro v hv
+    rw [hv] at hc
+    cases v with
+    | seq b l =>
+      cases b with
+      | false =>
+        simp only [Bool.and_eq_true, Bool.not_eq_true', List.isEmpty_eq_false_iff] at hc
+        exact ⟨l, rfl, hc.1, isTypeListB_sound hc.2⟩
+      | true => cases hc
+    | int i => cases hc
+    | str s => cases hc
+    | dict l => cases hc
+  · intro v hv
+    rw [hv] at ht
+    cases v with
+    | str s => exact ⟨s, rfl, by simpa using ht⟩
+    | int i => cases ht
+    | seq b l => cases ht
+    | dict l => cases ht
+
+theorem noClashB_sound {T : List V} {x : Slots} (hl : x.length = names.length) (h : noClashB names T x = true) :
+    NoClash names T x := by
+  intro j hj hs
+  by_cases hlt : j < names.length
+  · have := List.all_eq_true.1 h j (List.mem_range.2 hlt)
+    simp only [hj, hs, Bool.not_true, Bool.false_or] at this
+    exact this
+  · rw [getSlot_of_le x j (by omega)] at hs
+    cases hs
+
+theorem namesOKb_sound (h : namesOKb names = true) : NamesOK names := by
+  simp only [namesOKb, Bool.and_eq_true, decide_eq_true_eq, List.contains_iff_mem] at h
+  obtain ⟨⟨⟨⟨h1, h2⟩, h3⟩, h4⟩, h5⟩ := h
+  exact ⟨h1, h2, h3, h4, h5⟩
+
+end
+
+section
+variable {names : List String}
+
+/-- a binding of the new variable context is in the result -/
+theorem UP_own (hn : NamesOK names) (p : Slots) {b : Slots} {j : Nat} (hj : j ≠ kCompose names) {x : V}
+    (h : getSlot b j = some x) : getSlot (UP names p b) j = some x := by
+  rw [getSlot_UP hn]
+  by_cases hh : hist names p = []
+  · simp [hh, h]
+  · simp [hh, hj, h, mergeSlot]
+
+theorem inT_nil (j : Nat) : inT names [] j = false := rfl
+
+/-- the binding of a listed type survives an update by a variable context that does not have that key -/
+theorem UP_persist (hn : NamesOK names) {p b : Slots} {j : Nat} (hj : j ≠ kCompose names)
+    (hb : getSlot b j = none) (hin : inT names (hist names p) j = true) :
+    getSlot (UP names p b) j = getSlot p j := by
+  have hh : hist names p ≠ [] := by
+    intro h; rw [h, inT_nil] at hin; cases hin
+  rw [getSlot_UP hn]
+  simp [hh, hj, hb, mergeSlot, inT_append, hin]
+
+theorem fold_persist (hn : NamesOK names) (as : List Slots) (p : Slots) {j : Nat} (hj : j ≠ kCompose names)
+    (hin : inT names (hist names p) j = true) (hnone : ∀ a ∈ as, getSlot a j = none) :
+    getSlot (as.foldl (UP names) p) j = getSlot p j := by
+  induction as generalizing p with
+  | nil => rfl
+  | cons b r ih =>
+    simp only [List.foldl_cons]
+    rw [ih (UP names p b) (by rw [hist_UP hn, inT_append, hin]; rfl) (fun a ha => hnone a (by simp [ha])),
+      UP_persist hn hj (hnone b (by simp)) hin]
+
+/-- **types persist**: a binding that a variable context of the chain has under one of its own types is still
+there at the end of the chain if no later variable context has that key -/
+theorem chain_persist (hn : NamesOK names) (pre post : List Slots) (a p : Slots) {j : Nat} (hj : j ≠ kCompose names)
+    {x : V} (ha : getSlot a j = some x) (hin : inT names (hist names a) j = true)
+    (hpost : ∀ b ∈ post, getSlot b j = none) :
+    getSlot ((pre ++ a :: post).foldl (UP names) p) j = some x := by
+  rw [List.foldl_append, List.foldl_cons]
+  rw [fold_persist hn post _ hj (by rw [hist_UP hn, inT_append, hin]; simp) hpost]
+  exact UP_own hn _ hj ha
+
+/-- **compose lists the types in application order**: after a chain of at least one variable context whose
+predecessors (the value's own history included) carry some history, `compose` is the value's history followed
+by the histories of the chain's variables -/
+theorem fold_compose (hn : NamesOK names) (as : List Slots) (p : Slots) (hne : as ≠ [])
+    (hh : hist names p ++ as.dropLast.flatMap (hist names) ≠ []) :
+    getSlot (as.foldl (UP names) p) (kCompose names) =
+      some (.seq false (hist names p ++ as.flatMap (hist names))) := by
+  have hsplit := List.dropLast_concat_getLast hne
+  rw [← hsplit, List.foldl_append]
+  simp only [List.foldl_cons, List.foldl_nil]
+  rw [getSlot_UP hn, hist_foldl hn]
+  simp only [hh, if_false, if_true, List.flatMap_append, List.flatMap_cons, List.flatMap_nil, List.append_nil,
+    List.append_assoc]
+
+end
+
+section
+variable {names : List String} {D : Type}
+
+/-! ## auxiliary facts for `Props/C14.lean` -/
+
+theorem mkVariable_getter {name : V} {f : D → D} {ty : V} {kw : Slots} {v : Variable D}
+    (h : mkVariable names name (.fn f) ty kw = .ok v) : v.getter = f := by
+  unfold mkVariable at h
+  simp only [] at h
+  split at h
+  · cases h; rfl
+  · split at h
+    · cases h; rfl
+    · split at h <;> cases h
+
+theorem preserveStep_keeps {old acc r : Slots} {t : V} (h : preserveStep names old acc t = .ok r)
+    {j : Nat} {a : V} (hj : getSlot acc j = some a) : getSlot r j = some a := by
+  unfold preserveStep at h
+  cases t with
+  | str s =>
+    simp only [] at h
+    cases h1 : getSlot acc (key names s) <;> cases h2 : getSlot old (key names s) <;> simp [h1, h2] at h
+    · rw [← h]; exact hj
+    · rw [← h, getSlot_setSlot]
+      by_cases hk : j = key names s
+      · rw [hk, h1] at hj; cases hj
+      · simp [hk, hj]
+    · rw [← h]; exact hj
+    · rw [← h]; exact hj
+  | int i => simp only [] at h; split at h <;> cases h; exact hj
+  | seq b l => simp only [] at h; split at h <;> cases h; exact hj
+  | dict l => simp only [] at h; split at h <;> cases h; exact hj
+
+theorem preserveLoop_keeps {old : Slots} (c : List V) {acc r : Slots} (h : preserveLoop names old acc c = .ok r)
+    {j : Nat} {a : V} (hj : getSlot acc j = some a) : getSlot r j = some a := by
+  induction c generalizing acc with
+  | nil => simp [preserveLoop] at h; rw [← h]; exact hj
+  | cons t rest ih =>
+    simp only [preserveLoop] at h
+    cases hs : preserveStep names old acc t with
+    | error e => simp [hs] at h
+    | ok acc' =>
+      simp only [hs] at h
+      exact ih h (preserveStep_keeps hs hj)
+
+/-- every binding of the new variable context except `compose` is in the updated `context.variable`
+(any version of the condition, any old `context.variable`) -/
+theorem updateVar_keeps {fx : Bool} {cv : Option V} {vc r : Slots} (h : updateVar names fx cv vc = .ok r)
+    {j : Nat} (hjc : j ≠ kCompose names) {a : V} (hj : getSlot vc j = some a) : getSlot r j = some a := by
+  have hfin : ∀ old composed, finish names old vc composed = .ok r → getSlot r j = some a := by
+    intro old composed hf
+    unfold finish at hf
+    split at hf
+    · cases hf; exact hj
+    · exact preserveLoop_keeps composed hf (by rw [getSlot_setSlot]; simp [hjc, hj])
+  unfold updateVar at h
+  cases cv with
+  | none => simp at h; rw [← h]; exact hj
+  | some c =>
+    simp only [] at h
+    split at h
+    · cases h; exact hj
+    · cases c with
+      | dict d =>
+        simp only [] at h
+        split at h
+        · cases hco : composedOf names d vc with
+          | error e => simp [hco] at h
+          | ok composed => simp only [hco] at h; exact hfin _ _ h
+        · cases h; exact hj
+      | int i =>
+        simp only [] at h
+        split at h
+        · cases h
+        · cases h
+        · split at h
+          · split at h
+            · cases h
+            · cases h
+            · cases h; exact hj
+          · cases h; exact hj
+      | str s =>
+        simp only [] at h
+        split at h
+        · cases h
+        · cases h
+        · split at h
+          · split at h
+            · cases h
+            · cases h
+            · cases h; exact hj
+          · cases h; exact hj
+      | seq b l =>
+        simp only [] at h
+        split at h
+        · cases h
+        · cases h
+        · split at h
+          · split at h
+            · cases h
+            · cases h
+            · cases h; exact hj
+          · cases h; exact hj
+
+/-- the context of an outcome -/
+def ctxOf {D : Type} (r : Except Err (D × Slots)) : Option Slots :=
+  match r with
+  | .ok (_, c) => some c
+  | .error _ => none
+
+theorem ctxOf_call {D : Type} (names : List String) (fx : Bool) (v : Variable D) (x : Value D) :
+    ctxOf (call names fx v x) =
+      match updateContext names fx (getDataContext names x).2 v.varCtx with
+      | .ok c => some c
+      | .error _ => none := by
+  unfold call
+  generalize getDataContext names x = dc
+  obtain ⟨d, c⟩ := dc
+  simp only []
+  cases updateContext names fx c v.varCtx <;> rfl
+
+/-- the dictionary `context.variable` the chain starts from: the value's own, or `{}` -/
+def preDict (names : List String) (cv : Option V) : Slots :=
+  match cv with
+  | some (.dict p) => p
+  | _ => emptyD names.length
+
+/-- a plain typed variable `Variable(name, f, type=ty, **kw)` -/
+structure Leaf (D : Type) where
+  name : V
+  f : D → D
+  ty : String
+  kw : Slots
+
+/-- `{"name": name, **kw}`: what the variable stores under its type -/
+def Leaf.attrs (names : List String) (l : Leaf D) : Slots :=
+  dictUpdate (setSlot (emptyD names.length) (kName names) (some l.name)) l.kw
+
+/-- its `var_context` -/
+def Leaf.ctx (names : List String) (l : Leaf D) : Slots :=
+  setSlot (setSlot (l.attrs names) (key names l.ty) (some (.dict (l.attrs names)))) (kType names) (some (.str l.ty))
+
+def Leaf.var (names : List String) (l : Leaf D) : Variable D := ⟨l.f, l.ctx names⟩
+
+theorem mkVariable_leaf (l : Leaf D) (hty : l.ty ≠ "") :
+    mkVariable names l.name (.fn l.f) (.str l.ty) l.kw = .ok (l.var names) := by
+  simp [mkVariable, truthy, hty, Leaf.var, Leaf.ctx, Leaf.attrs]
+
+theorem key_ne_of_ne {s t : String} (hs : s ∈ names) (h : s ≠ t) : key names s ≠ key names t :=
+  fun he => h (key_inj hs he)
+
+theorem Leaf.getSlot_ctx (l : Leaf D) (j : Nat) :
+    getSlot (l.ctx names) j =
+      if j = kType names then some (.str l.ty)
+      else if j = key names l.ty then some (.dict (l.attrs names))
+      else match getSlot l.kw j with
+        | some v => some v
+        | none => if j = kName names then some l.name else none := by
+  unfold Leaf.ctx Leaf.attrs
+  rw [getSlot_setSlot]
+  by_cases h1 : j = kType names
+  · simp [h1]
+  · simp only [h1, if_false]
+    rw [getSlot_setSlot]
+    by_cases h2 : j = key names l.ty
+    · simp [h2]
+    · simp only [h2, if_false]
+      rw [getSlot_dictUpdate, getSlot_setSlot]
+      cases getSlot l.kw j <;> simp
+
+theorem map_ctx_leaves (ls : List (Leaf D)) :
+    (ls.map (Leaf.var names)).map Variable.varCtx = ls.map (Leaf.ctx names) := by
+  induction ls with
+  | nil => rfl
+  | cons l r ih => simp only [List.map_cons, ih]; rfl
+
+theorem hist_preDict (cv : Option V) : hist names (preDict names cv) = preHist names cv := by
+  unfold preDict preHist
+  cases cv with
+  | none => simp [hist]
+  | some c => cases c <;> simp [hist]
 
 end
 
